@@ -409,6 +409,16 @@ def run_check(pid, tier, seed, replay=None):
                 hres = run_harness(gb["bin"], spec["go_tests"], outdir, seed, tier, timeout=spec.get("timeout", {}).get(tier, 900))
                 if not hres["ok"]:
                     broken.append("harness run failed: " + hres["log"][-1500:])
+            if spec.get("go_alt"):
+                alt = spec["go_alt"]
+                with Lock():
+                    gba = go_build("internal", gocmd=alt["gocmd"])
+                if not gba["ok"]:
+                    broken.append("harness does not build with %s: %s" % (alt["gocmd"], gba["log"][-800:]))
+                else:
+                    hra = run_harness(gba["bin"], alt["tests"], outdir, seed, tier, timeout=spec.get("timeout", {}).get(tier, 900), extra_env=alt.get("env"))
+                    if not hra["ok"]:
+                        broken.append("harness run with %s failed: %s" % (alt["gocmd"], hra["log"][-1500:]))
             if spec.get("go_tests_root"):
                 with Lock():
                     gbr = go_build(".")
